@@ -139,6 +139,19 @@ def write_replay(prop, o, registry, repo_root):
     return path, reproduced
 
 
+def all_verified_targets(R, mods):
+    out = set()
+    for m in mods:
+        out |= set(getattr(m, 'ROOTS', []) or [])
+    import contracts
+    for m in pkgutil.iter_modules(contracts.__path__):
+        mod = sys.modules.get(f'contracts.{m.name}')
+        if mod is not None:
+            out |= set(getattr(mod, 'ROOTS', []) or [])
+    out |= {t for t, c in R.contracts.items() if c.props and not c.inline}
+    return out
+
+
 def self_test(prop, repo_root):
     """Thorough tier only, evidence only (never changes the verdict): every stored seeded change of this property
     (seeded/<prop>*/patch.diff) is applied to a scratch copy of the tree under check and the quick check is run on
@@ -331,6 +344,10 @@ def run_property(prop, tier, seed):
             'functions_out_of_reach': out_of_reach,
             'inlined_functions': sorted(eng.inlined),
             'contracts_used_at_call_sites': sorted(eng.used_contracts),
+            # contracts of repository functions that callers rely on but that NO check verifies against the function's body
+            # (interface contracts of abstract methods, thin OS wrappers, ...): assumptions, listed by name
+            'assumed_contracts_of_repository_functions_not_verified_by_any_check': sorted(
+                t for t in eng.used_contracts if t not in all_verified_targets(R, mods)),
             'builtin_models_used': sorted(eng.used_builtins),
             'by_backend': by_backend,
             'by_kind': {k: sum(1 for o in obls if o.kind == k) for k in sorted({o.kind for o in obls})},
